@@ -437,21 +437,51 @@ class _FuseGen(ast.NodeTransformer):
     visit_ListComp = visit_SetComp = visit_GeneratorExp
 
 
+def _max_loads(stmts, name):
+    """largest number of reads of `name` on one path through the block (a read inside a loop body or a nested definition counts
+    twice: it may happen again)"""
+    def loads(n):
+        return sum(1 for x in ast.walk(n) if isinstance(x, ast.Name) and x.id == name and isinstance(x.ctx, ast.Load)) if n is not None else 0
+
+    total = 0
+    for st in stmts:
+        if isinstance(st, ast.If):
+            total += loads(st.test) + max(_max_loads(st.body, name), _max_loads(st.orelse, name))
+        elif isinstance(st, (ast.For, ast.AsyncFor)):
+            total += loads(st.iter) + 2 * _max_loads(st.body, name) + _max_loads(st.orelse, name)
+        elif isinstance(st, ast.While):
+            total += 2 * (loads(st.test) + _max_loads(st.body, name)) + _max_loads(st.orelse, name)
+        elif isinstance(st, ast.Try):
+            total += _max_loads(st.body, name) + max([_max_loads(h.body, name) for h in st.handlers] or [0]) \
+                + _max_loads(st.orelse, name) + _max_loads(st.finalbody, name)
+        elif isinstance(st, (ast.With, ast.AsyncWith)):
+            total += sum(loads(i.context_expr) for i in st.items) + _max_loads(st.body, name)
+        elif isinstance(st, (ast.FunctionDef, ast.AsyncFunctionDef, ast.ClassDef)):
+            total += 2 * loads(st)
+        else:
+            total += loads(st)
+    return total
+
+
 def desugar(fnode):
+    from .sink import sink
+
     f = copy.deepcopy(fnode)
     f = _Functional().visit(f)
     f = _FuseGen().visit(f)
+    f = sink(f)   # a value picked by a branch and used once by the next statement is written at that use
     ast.fix_missing_locations(f)
     d = _D()
     d.lits = literal_bindings(f)
-    # generator expressions bound once to a local that is read exactly once (as the iterable of a loop)
+    # generator expressions bound once to a local that is read at most once on any path (as the iterable of a loop / a search)
     cnt = {}
     for n in ast.walk(f):
         if isinstance(n, ast.Name):
             s_, l_ = cnt.get(n.id, (0, 0))
             cnt[n.id] = (s_ + 1, l_) if isinstance(n.ctx, (ast.Store, ast.Del)) else (s_, l_ + 1)
     d.gens = {n.targets[0].id: n.value for n in ast.walk(f) if isinstance(n, ast.Assign) and len(n.targets) == 1 and isinstance(n.targets[0], ast.Name)
-              and isinstance(n.value, ast.GeneratorExp) and cnt.get(n.targets[0].id) == (1, 1)}
+              and isinstance(n.value, ast.GeneratorExp) and cnt.get(n.targets[0].id, (0, 0))[0] == 1
+              and (cnt.get(n.targets[0].id) == (1, 1) or (cnt[n.targets[0].id][1] > 1 and _max_loads(f.body, n.targets[0].id) == 1))}
     return d.visit(f)
 
 
